@@ -72,6 +72,10 @@ pub mod build_info;
 // Top-level storage manager (manages installations)
 mod storage_manager;
 
+// Verification instrumentation (off by default)
+#[cfg(feature = "verif-hooks")]
+pub mod verif_hooks;
+
 pub use build_info::BuildInfoFile;
 pub use config::StorageConfig;
 pub use container::AccessMode;
